@@ -52,13 +52,17 @@ def from_tlc(h, rnd=None):
     rcpts = 0             # H_Receipt calls since head_step
     reobs = None          # current Reobserve step while between R_Head and R_Receipt
     after_rhead = False
+    intake = None         # current PushLog step while its block lookup has not been answered (LogReceived .. L_BlockTime)
     for x in h["hist"]:
         ev, a = x["ev"], x["a"]
         if ev in ENV_EVS:
             st = {"ev": ev, "a": dict(a)}
             if ev == "Arm":
                 st["a"]["text"] = rnd.choice(ERR_TEXTS)
-            if reobs is not None and after_rhead:
+            if intake is not None:
+                intake["a"]["hold"] = True
+                intake.setdefault("mid", [{"after": 0, "steps": []}])[0]["steps"].append(st)
+            elif reobs is not None and after_rhead:
                 reobs.setdefault("mid", [{"after": 0, "steps": []}])[0]["steps"].append(st)
             elif in_scan and head_step is not None:
                 mids = head_step.setdefault("mid", [])
@@ -73,7 +77,12 @@ def from_tlc(h, rnd=None):
                 if ev == "NewHead":
                     head_step, rcpts = st, 0
         elif ev == "PushLog":
-            steps.append({"ev": "PushLog", "a": a})
+            intake = {"ev": "PushLog", "a": dict(a)}
+            if rnd.random() < 0.3:
+                intake["a"]["hold"] = True      # held even if nothing is scripted for the gap
+            steps.append(intake)
+        elif ev in ("L_BlockTime", "L_Insert"):
+            intake = None
         elif ev == "Reobserve":
             reobs = {"ev": "Reobserve", "a": a}
             after_rhead = False
@@ -83,7 +92,7 @@ def from_tlc(h, rnd=None):
         elif ev == "R_Receipt":
             reobs, after_rhead = None, False
         elif ev == "H_Head":
-            in_scan = True
+            in_scan = intake is None
         elif ev == "H_Done":
             in_scan = False
         elif ev == "H_Receipt":
@@ -115,7 +124,10 @@ class Gen:
              "seq": r.randrange(1, 1000), "variant": {}, "pend": []}
         init = {"latest": latest, "final": latest - lag}
         n = r.randrange(5, 16)
-        self.mine_and_push(S)
+        if r.random() < 0.3:
+            self.held_intake(S)
+        else:
+            self.mine_and_push(S)
         for _ in range(n):
             x = r.random()
             if x < 0.22:
@@ -175,10 +187,41 @@ class Gen:
         r.shuffle(order)
         for i in order:
             if r.random() < 0.9:
-                S["steps"].append({"ev": "PushLog", "a": {"tx": tx, "i": i}})
+                S["steps"].append({"ev": "PushLog", "a": {"tx": tx, "i": i, "hold": r.random() < 0.2}})
                 lg = logs[i - 1]
                 if lg["core"] and lg["topic"]:
                     S["pend"].append((tx, nblk, lg["cl"]))
+
+    def held_intake(self, S):
+        """The log hand-over is not atomic: the chain moves (0..3 heads, possibly far) after the log has arrived and
+        before its pending entry is stored - the node's answer to the block lookup is held back meanwhile -, with
+        nothing else pending or with other entries pending; afterwards the chain moves on and the message must
+        come out.  Preceded, sometimes, by heads nobody is waiting for (the poller is idle and falls behind)."""
+        r = self.r
+        for _ in range(r.choice([0, 0, 1, 2])):
+            self.head(S, force=r.choice([1, 2, 7, 61]))
+        S["ntx"] += 1
+        tx = "x%d" % S["ntx"]
+        nblk = max(1, S["latest"] - r.choice([0, 0, 1, 3]))
+        S["seq"] += 1
+        lg = {"core": True, "topic": True, "sender": r.choice(["s1", "s2"]), "seq": S["seq"], "cl": r.choice([0, 0, 1, 2, 15])}
+        S["txs"][tx] = [lg]
+        S["mined"][tx] = nblk
+        S["steps"].append({"ev": "Mine", "a": {"tx": tx, "n": nblk, "status": 1, "logs": [lg]}})
+        mark = len(S["steps"])
+        for _ in range(r.choice([0, 1, 1, 2, 3])):
+            self.head(S, force=r.choice([1, 1, 2, 3, 16, 70]))
+        gap = [x for x in S["steps"][mark:] if x["ev"] == "NewHead"]
+        for x in gap:
+            x.pop("mid", None)
+        del S["steps"][mark:]
+        st = {"ev": "PushLog", "a": {"tx": tx, "i": 1, "hold": True}}
+        if gap:
+            st["mid"] = [{"after": 0, "steps": gap}]
+        S["steps"].append(st)
+        S["pend"].append((tx, nblk, lg["cl"]))
+        for _ in range(r.choice([1, 2, 3])):
+            self.head(S, force=r.choice([1, 1, 2, 16]))
 
     def head(self, S, force=None):
         r = self.r
